@@ -128,6 +128,15 @@ let () =
       | "KM" :: c :: k :: _ ->
         let r = key_string_values (unhex c) (unhex k) in
         print_endline (String.trim ((if r.ksv_err then "error " else if r.ksv_found then "found " else "notfound ") ^ String.concat "|" (List.map hex r.ksv_all)))
+      | "KV" :: k :: calls :: _ ->
+        (* get_keyval<double> for the same keyword, several texts and parse modes, one parser object *)
+        let cl = List.map (fun c -> match String.split_on_char ':' c with
+            | [m; cf] -> let (rq, ov) = (match m with "r" | "q" -> (true, false) | "o" | "n" | "d" -> (false, true) | _ -> (false, false)) in
+              ((rq, ov), unhex cf) | _ -> failwith "KV") (String.split_on_char '|' calls) in
+        let outs = kv_seq { kv_set = false; kv_val = KvInit } (unhex k) cl in
+        print_endline (String.concat ";" (List.map (fun o ->
+            Printf.sprintf "%d/%d/%s" (if o.ko_found then 1 else 0) (if o.ko_err then 1 else 0)
+              (match o.ko_val with KvInit -> Printf.sprintf "%h" 111.0 | KvDefault -> Printf.sprintf "%h" 222.0 | KvUser d -> Printf.sprintf "%h" (float_of_dec d))) outs))
       | "KS" :: calls :: _ ->
         (* successive key_lookup calls on one parser object: conf:key:savepos|conf:key:savepos|... *)
         let cl = List.map (fun c -> match String.split_on_char ':' c with
